@@ -13,7 +13,7 @@
                       come the gap g and then r, where r starts no gap, no `.`, and (if the expression
                       ends in a word character, w = true) g ++ r does not start with an identifier char.
    F is the fuel; every theorem holds for all F larger than the remaining text (fuel_of text is). *)
-From TSG Require Import Model.Parser Spec.Render Proofs.Parser Proofs.ParseRender.
+From TSG Require Import Model.Parser Spec.Render Proofs.Parser Proofs.ParseRender Proofs.ParseRenderStmt.
 
 (* ---- Location::advance and the byte offset, for ANY consumed text (newlines, multi-byte chars):
    offset = sum of the UTF-8 lengths, row = number of newlines, column = characters since the last
@@ -104,6 +104,51 @@ Theorem layout_irrelevant_expr : forall L1 L2 p1 p2 e,
   erase_locs (rloc L1 p1 e) = erase_locs (rloc L2 p2 e).
 Proof. exact rloc_erase_indep. Qed.
 
+(* ---- the round trip for statements (all 11 forms: let var set node edge attr(node) attr(edge) print
+   scan if/elif/else for; attribute lists with bare names = #true; condition lists with some/none/plain
+   conditions; blocks nested to any depth) and for the block of a stanza.
+   `stext tbl L st` is the written statement (tbl = the regex of every scan arm), `sloc tbl L p k st` the
+   AST the parser must produce at position p when k scan arms were parsed before: statement location
+   = first character of its keyword; `if` arms: the `if` / `elif` / `else` keyword; scan arms: the
+   `scan` keyword and their number in order of appearance; for-variable, conditions, variables,
+   captures: their first character.  The parser state afterwards has consumed exactly the text and
+   the following gap, and has recorded the regexes of the scan arms in order (add_pats).
+   stmt_follow: what follows is the next statement or the closing brace (no gap, `.`, `,`, `=`,
+   `elif`/`else`, and no identifier character directly after a final word). ---- *)
+Theorem parse_render_stmt : forall X F, UnicodeSane X -> forall tbl st L s g r,
+  WfStmt X tbl st -> WfLayout X L -> stmt_follow X (stmt_ends_word L st) g r ->
+  p_rest s = stext tbl L st ++ render_gap g ++ r -> (len s < F)%nat ->
+  (st0 <- parse_statement X F ;; consume_whitespace X F ;;; ret st0) s =
+    ROk (sloc tbl L (p_loc s) (length (p_pats s)) st)
+        (add_pats (stmt_pats tbl st) (st_after s (stext tbl L st ++ render_gap g) r)).
+Proof. intros X F HS tbl st L s g r. apply parse_render_stmt_lemma. exact HS. Qed.
+
+Theorem parse_render_block : forall X F, UnicodeSane X -> forall tbl l L s r,
+  wf_stmts X tbl l -> WfLayout X L ->
+  p_rest s = block_text tbl L l ++ r -> (len s < F)%nat ->
+  parse_stanza_statements X F s =
+    ROk (block_loc tbl L (p_loc s) (length (p_pats s)) l)
+        (add_pats (stmts_pats tbl l) (st_after s (block_text tbl L l) r)).
+Proof. intros X F HS tbl l L s r. apply parse_render_block_lemma. exact HS. Qed.
+
+(* the hypothesis UnicodeSane is a condition on the NON-ASCII rows of the external tables only *)
+Theorem unicode_sane_from_tables : forall X,
+  (forall c, 128 <= c -> x_ws X c = true -> x_alnum X c = false /\ x_alpha X c = false) -> UnicodeSane X.
+Proof. exact UnicodeSane_intro. Qed.
+
+(* FULL STATEMENT, not yet proved (see `partial` in lib/props.d/C07.py):
+   parse_render_file : forall X, UnicodeSane X -> forall items L,
+     WfItems X items -> WfLayout X L ->
+     (every stanza's query text q_i is accepted by the external as ONE pattern with full-match capture
+      index st_full_stanza_idx, contains no `{` outside strings/comments and does not begin with
+      attribute/global/inherit; the merged query source compiles; every scan regex is valid) ->
+     parse X (fuel_of (file_text L items)) (file_text L items)
+       = POk (file_of_items (file_loc L items)) (items_pats items).
+   The missing part is parse_into_file's loop over `global` / `inherit` / `attribute` / stanza items
+   (parse_global with its one-character quantifier, parse_shorthand, skip_query/parse_query);
+   everything below the items — the block of a stanza, every statement, every expression — is proved
+   above, and the whole is compared with the implementation on every run by the correspondence stream. *)
+
 (* ---- non-vacuity ---- *)
 Definition ex_ext : ext :=
   {| x_alpha := fun c => c =? 233; x_alnum := fun c => c =? 233; x_ws := fun c => c =? 160;
@@ -139,3 +184,54 @@ Qed.
 Example ex_some_keyword : parse_condition ex_ext 50 (st0 [115; 111; 109; 101; 32; 120]) =
   ROk (CSome (EUnscoped [120] (0, 5)) (0, 0)) (st_after (st0 [115; 111; 109; 101; 32; 120]) [115; 111; 109; 101; 32; 120] []).
 Proof. vm_compute. reflexivity. Qed.
+
+(* ---- the round-trip theorems apply to non-trivial instances ---- *)
+Example ex_ext_sane : UnicodeSane ex_ext.
+Proof.
+  apply unicode_sane_from_tables. intros c Hc Hw. cbn in *. apply N.eqb_eq in Hw. subst c. split; reflexivity.
+Qed.
+(* a layout with a space + comment at every odd-length position, trailing commas, escapes, a leading zero *)
+Definition ex_layout : layout :=
+  {| l_gap := fun p => if Nat.even (length p) then [] else [GWs 32; GComment [233; 59]; GWs 9];
+     l_flag := fun _ => true; l_esc := fun _ => [true; false]; l_zeros := fun _ => 1%nat |}.
+Example ex_layout_wf : WfLayout ex_ext ex_layout.
+Proof.
+  intros p. cbn. destruct (Nat.even (length p)); repeat constructor; cbn; try reflexivity.
+  intros [H|[H|[]]]; discriminate.
+Qed.
+(* (format [1, "a\n",] @cap.something) *)
+Definition ex_expr : expr :=
+  ECall [102; 111; 114; 109; 97; 116] [EList [EInt 1; EStr [97; 10]]; EScoped (ECapture [99; 97; 112] QOne 3 4 (7, 7)) [115; 111; 109; 101; 116; 104; 105; 110; 103] (9, 9)].
+Example ex_expr_wf : WfExpr ex_ext ex_expr.
+Proof. cbn. repeat split; discriminate. Qed.
+Example ex_expr_roundtrip :
+  let t := rtext ex_layout ex_expr in
+  parse_expression ex_ext 200 (st0 (t ++ [41])) = ROk (rloc ex_layout (0, 0) ex_expr) (st_after (st0 (t ++ [41])) t [41])
+  /\ (length t = 69)%nat.
+Proof.
+  cbv zeta. split; [|vm_compute; reflexivity].
+  apply (parse_render_expr ex_ext 200 ex_ext_sane ex_expr ex_layout (st0 (rtext ex_layout ex_expr ++ [41])) [] [41] ex_expr_wf ex_layout_wf).
+  - repeat split; try discriminate. constructor.
+  - reflexivity.
+  - vm_compute. lia.
+Qed.
+(* if some @cap, something { scan x { RE { print 1, 2 } } } elif #true { node n } else { attr (n) a, b = 1 } *)
+Definition ex_stmt : stmt :=
+  SIf [([CSome (ECapture [99; 97; 112] QZero 0 0 (0, 0)) (0, 0); CBool (EUnscoped [115; 111; 109; 101; 116; 104; 105; 110; 103] (0, 0)) (0, 0)],
+        [SScan (EUnscoped [120] (0, 0)) [(0, [SPrint [EInt 1; EInt 2] (0, 0)], (0, 0))] (0, 0)], (0, 0));
+       ([CBool ETrue (0, 0)], [SNode (VarU [110] (0, 0)) [] (0, 0)], (0, 0));
+       ([], [SAttrNode (EUnscoped [110] (0, 0)) [Attr [97] ETrue; Attr [98] (EInt 1)] (0, 0)], (0, 0))] (0, 0).
+Example ex_stmt_wf : WfStmt ex_ext [[97; 43]] ex_stmt.
+Proof. cbn. repeat split; try discriminate; repeat constructor; cbn; try discriminate; auto. Qed.
+Example ex_stmt_roundtrip :
+  let t := stext [[97; 43]] ex_layout ex_stmt in
+  (st1 <- parse_statement ex_ext 400 ;; consume_whitespace ex_ext 400 ;;; ret st1) (st0 (t ++ [125])) =
+    ROk (sloc [[97; 43]] ex_layout (0, 0) 0 ex_stmt) (add_pats [[97; 43]] (st_after (st0 (t ++ [125])) t [125]))
+  /\ (length t = 191)%nat.
+Proof.
+  cbv zeta. split; [|vm_compute; reflexivity].
+  apply (parse_render_stmt ex_ext 400 ex_ext_sane [[97; 43]] ex_stmt ex_layout (st0 (stext [[97; 43]] ex_layout ex_stmt ++ [125])) [] [125] ex_stmt_wf ex_layout_wf).
+  - repeat split; try discriminate; try reflexivity. constructor.
+  - reflexivity.
+  - vm_compute. lia.
+Qed.
